@@ -52,14 +52,17 @@ DoCall(r) ==
     LET c  == [call |-> r.call, rel |-> r.rel]
         ev == [call |-> r.call, rel |-> r.rel, res |-> r.res, tenc |-> r.tenc, nobj |-> r.nobj, items |-> r.items, same |-> r.same]
         v  == Judge(cfg, j, ev)
-        can == synced /\ Callable(s, c) /\ r.rel.u # "unsure" /\ r.rel.o # "unsure" /\ cfg.e.u # "unsure" /\ cfg.e.o # "unsure"
+        \* a password relation the harness could not decide (convention for characters without a PDFDocEncoding code):
+        \* the impl-shaped layer is not stepped (and stays unsynchronised until the next Reset); this is not drift
+        uns == r.rel.u = "unsure" \/ r.rel.o = "unsure" \/ cfg.e.u = "unsure" \/ cfg.e.o = "unsure"
+        can == synced /\ Callable(s, c) /\ ~uns
         t  == Step(cfg, s, c)
         agree == can /\ Agree(Observe(s, t, c), ev)
     IN /\ j' = v.j
        /\ s' = IF agree THEN t ELSE s
        /\ synced' = agree
        /\ UNCHANGED cfg
-       /\ PrintT(<<"VERDICT", ToJson([i |-> l, ok |-> v.ok, tags |-> v.tags, drift |-> (synced /\ ~agree)])>>)
+       /\ PrintT(<<"VERDICT", ToJson([i |-> l, ok |-> v.ok, tags |-> v.tags, drift |-> (synced /\ ~agree /\ ~uns)])>>)
 
 Next ==
     /\ l <= Len(Recs)
